@@ -74,6 +74,7 @@ type Share struct {
 	cellTop map[*ssa.Alloc]uint8 // for cells holding one pointer-like value (slice, map, pointer, interface): join of the tops stored
 	field   map[*types.Var]tt
 	param   map[*ssa.Parameter]tt
+	pfield  map[*ssa.Parameter]map[int]tt // by-value struct parameters: taint per field (share_struct.go)
 	free    map[*ssa.FreeVar]tt
 	ret     map[*ssa.Function]tt
 	capOut  map[*ssa.Parameter]uint8
@@ -568,10 +569,22 @@ func (s *Share) instr(fn *ssa.Function, in ssa.Instruction) {
 		s.set(x, t)
 	case *ssa.UnOp:
 		if x.Op == token.MUL {
+			if fa, ok := x.X.(*ssa.FieldAddr); ok {
+				if a, ok := fa.X.(*ssa.Alloc); ok {
+					if t, ok := s.cellFieldAt(a, fa.Field, x, 0); ok {
+						s.set(x, t)
+						break
+					}
+				}
+			}
 			s.set(x, s.loadFrom(x.X))
 		}
 	case *ssa.Field:
 		base := s.get(x.X)
+		if t, ok := s.structFieldTaint(x.X, x.Field, 0); ok && s.repoStruct(x.X.Type()) {
+			s.set(x, t)
+			break
+		}
 		if s.repoStruct(x.X.Type()) {
 			t := s.field[structFieldOf(x)]
 			if base.deep != 0 && s.isDocish(x.Type()) {
@@ -867,6 +880,7 @@ func (s *Share) call(fn *ssa.Function, ci ssa.CallInstruction) {
 			if i < len(callee.Params) && s.isDocish(callee.Params[i].Type()) {
 				s.addParam(callee.Params[i], argT[i])
 				s.capture(a, s.capOut[callee.Params[i]])
+				s.passStructArg(callee.Params[i], a, argT[i])
 			}
 		}
 		rt = rt.join(s.ret[callee])
